@@ -46,6 +46,10 @@ pub fn impl_rs(c: &RsCase) -> Vec<String> {
             Ok(rs) => rs,
             Err(e) => return vec![format!("BUILD {}", enc_err(&e))],
         };
+        // "nothing is remembered from one evaluation to the next" — not across different inputs either: the ruleset first
+        // evaluates a decoy input of the same shape with every scalar changed (its outcome is ignored)
+        let decoy = decoy_of(&c.facts);
+        let _ = catch_unwind(AssertUnwindSafe(|| block_on(rs.evaluate_value(&decoy)).map(|os| os.len())));
         let mut outs = vec![];
         for _ in 0..c.evals.max(1) {
             shared.log.lock().unwrap().clear();
@@ -94,6 +98,20 @@ pub fn impl_rs(c: &RsCase) -> Vec<String> {
     match r {
         Ok(v) => v,
         Err(p) => vec![format!("PANIC {}", panic_msg(p).replace(['\t', '\n'], " "))],
+    }
+}
+
+/// the same shape, every scalar different
+pub fn decoy_of(v: &Value) -> Value {
+    match v {
+        Value::None => Value::Map(std::collections::BTreeMap::from([("amount".to_string(), Value::Int(7))])),
+        Value::Bool(b) => Value::Bool(!b),
+        Value::Int(i) => Value::Int(i.wrapping_add(1000)),
+        Value::Float(f) => Value::Float(if f.is_finite() { f / 2.0 + 1.25 } else { 0.5 }),
+        Value::String(s) => Value::String(format!("{}~", s)),
+        Value::Vec(xs) => Value::Vec(xs.iter().map(decoy_of).collect()),
+        Value::Map(m) => Value::Map(m.iter().map(|(k, x)| (k.clone(), decoy_of(x))).collect()),
+        other => other.clone(),
     }
 }
 
